@@ -419,6 +419,7 @@ def run(ctx):
     descriptor_rules(ctx, emits)
     declaration_binding(ctx)
     storage_created_once(ctx)
+    answered(ctx)
     from .common import class_memo_not_inherited
     class_memo_not_inherited(
         ctx, 'C17.D3', ('objects',),
@@ -428,6 +429,37 @@ def run(ctx):
     ctx.floor('C17.D3', 2)
     ctx.floor('C17.D4', 2)
     ctx.floor('C17.D5', 4)
+
+
+def answered(ctx):
+    """Get / Set / GetAll are ordinary method calls of an exported object:
+    "failing with an error reply otherwise" holds only if the dispatcher
+    answers every call - also the one whose VALUE cannot be encoded under
+    the declared type (the failure then happens inside the reply callback,
+    which is why the error callback must be chained behind it).  The reply
+    discipline of C10 (D1 one reply, D3 callback then errback) is
+    re-reported here."""
+    from . import c10
+
+    class _Sub:
+        prog = ctx.prog
+        tier = ctx.tier
+        extra = {}
+
+        def ob(self, rule, where, slot, ok, msg, detail=None,
+               nontrivial=True, loc=None):
+            if rule in ('C10.D1', 'C10.D3'):
+                ctx.ob('C17.D1', where, 'answered:%s:%s' % (rule, slot), ok,
+                       '[property calls are answered by the dispatcher, %s] '
+                       % rule + msg, detail, nontrivial, loc)
+            return ok
+
+        def floor(self, *a):
+            pass
+
+        def advisory(self, *a):
+            pass
+    c10.run(_Sub())
 
 
 def descriptor_rules(ctx, emits):
